@@ -254,4 +254,6 @@ def run(chk):
     rule_meta(chk)
     from . import c03
     c03.rule_propagate(chk)
+    from . import c02
+    c02.rule_fields(chk)    # whatever the parameters are called, they cannot displace the action's own identity/placement keys
     c03.rule_truthful(chk)  # the logged action's end is 'succeeded' (with the result) exactly when the call returned
